@@ -25,6 +25,17 @@ theorem c19_accepts (s : State) :
     | none => simp [step, hc] at h
     | some ph => exact ⟨ph, rfl, by cases ph <;> simp_all [step, inProgress, alive]⟩
 
+/-- **C19 (… and refuses otherwise).**  `start_connection` is refused with "already connected"
+EXACTLY when the attached connection has not been closed — an attempt in progress on an open
+connection, or a live session; so an accepted attempt never replaces a connection that is still
+open (nothing is left behind unclosed). -/
+theorem c19_refuses_iff (s : State) :
+    ((step s .callStart).last = .alreadyConnected ↔ ∃ ph, s.conn = some ph ∧ alive ph = true) ∧
+    ((step s .callStart).last = .ok → ∀ ph, s.conn = some ph → alive ph = false) := by
+  cases hc : s.conn with
+  | none => simp [step, hc]
+  | some ph => cases ph <;> simp [step, hc, alive]
+
 /-- … in particular after every history: after any failed attempt, after the device or the user
 ended the session, after a close at any stage — once the attempt that was in progress (if any) has
 unwound, the client accepts a new attempt -/
